@@ -93,7 +93,7 @@ class Ctx:
 
 def load_known():
     p = os.path.join(VERIF, "known_findings.json")
-    if not os.path.exists(p):
+    if not os.path.exists(p) or os.environ.get("VERIF_NO_KNOWN"):     # VERIF_NO_KNOWN: tooling only (to mint pinned replays)
         return []
     with open(p) as f:
         return json.load(f)
